@@ -86,27 +86,27 @@
 //@ fn src/wasm.rs :: WasmKeeper :: call_execute
 //@   ret r
 //@   ensures [C05.call_execute.unfold,C08,C10,C13] (r, final(storage).view()) == self.call_unfold(Entry::Execute, router, old(storage).view(), *block, address, Some(info), msg@, None)
-//@   replace_re? "\\|contract, deps, env\\| (?P<C>contract\\.execute\\(deps, env, info, msg\\))" => "|contract: &dyn Contract<ExecC, QueryC>, deps: DepsMut<QueryC>, env: Env| -> (cr: AnyResult<Response<ExecC>>) ensures (cr, final(deps.storage).view()) == contract.entry_sem(Entry::Execute, old(deps.storage).view(), deps.querier.snap(), env, Some(info), msg@, None) { \\g<C> }"
+//@   replace_re? "\\|contract, deps, env\\| (?:\\{\\s*)?(?P<C>Self::verify_response\\(contract\\.execute\\(deps, env, info, msg\\)\\?\\))(?:\\s*\\})?" => "|contract: &dyn Contract<ExecC, QueryC>, deps: DepsMut<QueryC>, env: Env| -> (cr: AnyResult<Response<ExecC>>) ensures cr == verified(contract.entry_sem(Entry::Execute, old(deps.storage).view(), deps.querier.snap(), env, Some(info), msg@, None).0) && final(deps.storage).view() == contract.entry_sem(Entry::Execute, old(deps.storage).view(), deps.querier.snap(), env, Some(info), msg@, None).1 { \\g<C> }"
 //@ end
 //@ fn src/wasm.rs :: WasmKeeper :: call_instantiate
 //@   ret r
 //@   ensures [C05.call_instantiate.unfold,C08,C10,C13] (r, final(storage).view()) == self.call_unfold(Entry::Instantiate, router, old(storage).view(), *block, address, Some(info), msg@, None)
-//@   replace_re? "\\|contract, deps, env\\| (?P<C>contract\\.instantiate\\(deps, env, info, msg\\))" => "|contract: &dyn Contract<ExecC, QueryC>, deps: DepsMut<QueryC>, env: Env| -> (cr: AnyResult<Response<ExecC>>) ensures (cr, final(deps.storage).view()) == contract.entry_sem(Entry::Instantiate, old(deps.storage).view(), deps.querier.snap(), env, Some(info), msg@, None) { \\g<C> }"
+//@   replace_re? "\\|contract, deps, env\\| (?:\\{\\s*)?(?P<C>Self::verify_response\\(contract\\.instantiate\\(deps, env, info, msg\\)\\?\\))(?:\\s*\\})?" => "|contract: &dyn Contract<ExecC, QueryC>, deps: DepsMut<QueryC>, env: Env| -> (cr: AnyResult<Response<ExecC>>) ensures cr == verified(contract.entry_sem(Entry::Instantiate, old(deps.storage).view(), deps.querier.snap(), env, Some(info), msg@, None).0) && final(deps.storage).view() == contract.entry_sem(Entry::Instantiate, old(deps.storage).view(), deps.querier.snap(), env, Some(info), msg@, None).1 { \\g<C> }"
 //@ end
 //@ fn src/wasm.rs :: WasmKeeper :: call_reply
 //@   ret r
 //@   ensures [C03.call_reply.unfold,C08,C10,C13] (r, final(storage).view()) == self.call_unfold(Entry::Reply, router, old(storage).view(), *block, address, None, Seq::<u8>::empty(), Some(reply))
-//@   replace_re? "\\|contract, deps, env\\| (?P<C>contract\\.reply\\(deps, env, reply\\))" => "|contract: &dyn Contract<ExecC, QueryC>, deps: DepsMut<QueryC>, env: Env| -> (cr: AnyResult<Response<ExecC>>) ensures (cr, final(deps.storage).view()) == contract.entry_sem(Entry::Reply, old(deps.storage).view(), deps.querier.snap(), env, None, Seq::<u8>::empty(), Some(reply)) { \\g<C> }"
+//@   replace_re? "\\|contract, deps, env\\| (?:\\{\\s*)?(?P<C>Self::verify_response\\(contract\\.reply\\(deps, env, reply\\)\\?\\))(?:\\s*\\})?" => "|contract: &dyn Contract<ExecC, QueryC>, deps: DepsMut<QueryC>, env: Env| -> (cr: AnyResult<Response<ExecC>>) ensures cr == verified(contract.entry_sem(Entry::Reply, old(deps.storage).view(), deps.querier.snap(), env, None, Seq::<u8>::empty(), Some(reply)).0) && final(deps.storage).view() == contract.entry_sem(Entry::Reply, old(deps.storage).view(), deps.querier.snap(), env, None, Seq::<u8>::empty(), Some(reply)).1 { \\g<C> }"
 //@ end
 //@ fn src/wasm.rs :: WasmKeeper :: call_sudo
 //@   ret r
 //@   ensures [C05.call_sudo.unfold,C08,C10,C13] (r, final(storage).view()) == self.call_unfold(Entry::Sudo, router, old(storage).view(), *block, address, None, msg@, None)
-//@   replace_re? "\\|contract, deps, env\\| (?P<C>contract\\.sudo\\(deps, env, msg\\))" => "|contract: &dyn Contract<ExecC, QueryC>, deps: DepsMut<QueryC>, env: Env| -> (cr: AnyResult<Response<ExecC>>) ensures (cr, final(deps.storage).view()) == contract.entry_sem(Entry::Sudo, old(deps.storage).view(), deps.querier.snap(), env, None, msg@, None) { \\g<C> }"
+//@   replace_re? "\\|contract, deps, env\\| (?:\\{\\s*)?(?P<C>Self::verify_response\\(contract\\.sudo\\(deps, env, msg\\)\\?\\))(?:\\s*\\})?" => "|contract: &dyn Contract<ExecC, QueryC>, deps: DepsMut<QueryC>, env: Env| -> (cr: AnyResult<Response<ExecC>>) ensures cr == verified(contract.entry_sem(Entry::Sudo, old(deps.storage).view(), deps.querier.snap(), env, None, msg@, None).0) && final(deps.storage).view() == contract.entry_sem(Entry::Sudo, old(deps.storage).view(), deps.querier.snap(), env, None, msg@, None).1 { \\g<C> }"
 //@ end
 //@ fn src/wasm.rs :: WasmKeeper :: call_migrate
 //@   ret r
 //@   ensures [C12.call_migrate.unfold,C05,C08,C10,C13] (r, final(storage).view()) == self.call_unfold(Entry::Migrate, router, old(storage).view(), *block, address, None, msg@, None)
-//@   replace_re? "\\|contract, deps, env\\| (?P<C>contract\\.migrate\\(deps, env, msg\\))" => "|contract: &dyn Contract<ExecC, QueryC>, deps: DepsMut<QueryC>, env: Env| -> (cr: AnyResult<Response<ExecC>>) ensures (cr, final(deps.storage).view()) == contract.entry_sem(Entry::Migrate, old(deps.storage).view(), deps.querier.snap(), env, None, msg@, None) { \\g<C> }"
+//@   replace_re? "\\|contract, deps, env\\| (?:\\{\\s*)?(?P<C>Self::verify_response\\(contract\\.migrate\\(deps, env, msg\\)\\?\\))(?:\\s*\\})?" => "|contract: &dyn Contract<ExecC, QueryC>, deps: DepsMut<QueryC>, env: Env| -> (cr: AnyResult<Response<ExecC>>) ensures cr == verified(contract.entry_sem(Entry::Migrate, old(deps.storage).view(), deps.querier.snap(), env, None, msg@, None).0) && final(deps.storage).view() == contract.entry_sem(Entry::Migrate, old(deps.storage).view(), deps.querier.snap(), env, None, msg@, None).1 { \\g<C> }"
 //@ end
 
 //@ fn src/wasm.rs :: WasmKeeper :: query_raw
